@@ -102,6 +102,11 @@ pub fn snap(h: &LeanString) -> Snap {
 #[derive(Clone, Debug, serde::Serialize, serde::Deserialize, PartialEq)]
 pub struct Violation {
     pub props: Vec<String>,
+    /// the subset of `props` that was added because of the context the step ran in (an injected
+    /// refusal, a callback panic, a giant size argument) rather than because of the clause itself;
+    /// such a tag is kept only if the violation disappears when that fault is taken away
+    #[serde(default, skip_serializing_if = "Vec::is_empty")]
+    pub ctx: Vec<String>,
     pub invariant: String,
     pub step: usize,
     pub op: String,
@@ -273,7 +278,7 @@ impl Ctx<'_> {
         let mut v: Vec<String> = base.iter().map(|s| s.to_string()).collect();
         let mut add = |p: &str| {
             if !v.iter().any(|x| x == p) {
-                v.push(p.to_string())
+                v.push(format!("+{p}"))
             }
         };
         if self.fault_fired() {
@@ -291,8 +296,12 @@ impl Ctx<'_> {
     }
 
     fn v(&self, props: Vec<String>, invariant: &str, detail: String) -> Violation {
+        // entries starting with '+' are contextual tags (see `ctx_tags`)
+        let ctx: Vec<String> = props.iter().filter(|p| p.starts_with('+')).map(|p| p[1..].to_string()).collect();
+        let props: Vec<String> = props.iter().map(|p| p.trim_start_matches('+').to_string()).collect();
         Violation {
             props,
+            ctx,
             invariant: invariant.to_string(),
             step: self.idx,
             op: self.st.op.name().to_string(),
@@ -1217,6 +1226,7 @@ pub fn run_case(slots_n: usize, heap_cfg: &super::heapcfg::HeapCfg, fail_run_req
     if violation.is_none() {
         let mk = |inv: &str, detail: String| Violation {
             props: vec!["C03".into()],
+            ctx: Vec::new(),
             invariant: inv.into(),
             step: n_steps,
             op: "end_of_run_drop".into(),
